@@ -120,10 +120,24 @@ void check_flush_returned(World& W, FlushRec& f)
       }
       if (is_prop("C10"))
       {
-        // a throwing sink may remove this statement from this sink and the sinks after it; flush failures are injected too
-        continue;
+        // fault injection: a throwing write_log may remove this statement from this sink and the sinks after it in the
+        // logger's sink order; a sink with an injected flush failure may stay unflushed. Every OTHER sink must still be
+        // written and flushed when flush_log() returns.
+        bool excused = sink_threw || !W.sinks[sk].raw->plan.flush_calls.empty();
+        LoggerInfo const& L = W.loggers[s.logger];
+        for (int prev : L.sinks)
+        {
+          if (prev == sk) break;
+          for (auto const& e : W.journal)
+          {
+            int w2;
+            uint32_t q2;
+            std::string p2;
+            if (e.kind == 'X' && e.sink == prev && parse_msg(e.msg, w2, q2, p2) && w2 == s.w && q2 == s.seq) excused = true;
+          }
+        }
+        if (excused) continue;
       }
-      (void)sink_threw;
       std::string who = (s.w == f.w) ? "its own earlier statement" : "statement of another thread whose call had completed before the flush was invoked";
       if (last_w < 0)
       {
@@ -300,7 +314,9 @@ void op_log(World& W, int wi, bool in_burst, int ypoint, int logger_override = -
   bool is_macro = (s.kind == SKind::MacroStatic || s.kind == SKind::MacroDynamic);
   if (!is_macro) s.seq = x.next_seq++;
   bool never_fits_ok = kDropping && is_prop("C08");
-  s.padlen = draw_padlen(W, never_fits_ok, small || is_prop("C16") || is_prop("C18") || is_prop("C17"));
+  // C05 asserts order only when EVERY statement of the case met the deadline: keep blocking (full queue) rare there
+  bool mostly_small = is_prop("C05") && c.pick(12) != 11;
+  s.padlen = draw_padlen(W, never_fits_ok, small || mostly_small || is_prop("C16") || is_prop("C18") || is_prop("C17"));
   if (s.kind == SKind::Bomb)
   {
     // the deferred-format argument is larger than the two integers it replaces (object + alignment slack)
@@ -309,7 +325,7 @@ void op_log(World& W, int wi, bool in_burst, int ypoint, int logger_override = -
   s.encoded = kStmtFixed + s.padlen + (s.kind == SKind::Bomb ? 32 : 0);
   s.issue_idx = W.op_counter;
   bool stall = false;
-  if ((is_prop("C05") || is_prop("C06")) && !small) stall = c.pick(6) == 5;
+  if ((is_prop("C05") || is_prop("C06")) && !small && W.stalls_enabled) stall = c.pick(6) == 5;
   s.stalled = stall;
   W.stmts.push_back(s);
   size_t si = W.stmts.size() - 1;
